@@ -46,6 +46,10 @@ def family(rp):
     f.add("call-None-for-nullable-parameter-last", "def f(b: Int, a: Int?) -> Int => b\nf(2, None)", "accept")
     f.add("call-constructor-None-after-nullable", "class Box(def label: Str?, def size: Int)\n    def g(self) -> Int => self.size\ndef b := Box(None, None)", "reject")
     f.add("call-Int?-for-Float-parameter", "def f(a: Float) -> Float => a\ndef y: Int? := 1\nf(y)", "reject")
+    f.add("call-None-for-defaulted-parameter", "def f(a: Int, b: Int := 5) -> Int => a + b\nf(1, None)", "reject")
+    f.add("call-nullable-for-defaulted-parameter", "def f(a: Int, b: Int := 5) -> Int => a + b\ndef y: Int? := 1\nf(1, y)", "reject")
+    f.add("call-value-for-defaulted-parameter", "def f(a: Int, b: Int := 5) -> Int => a + b\nf(1, 2)", "accept")
+    f.add("call-constructor-None-for-defaulted", "class A\n    def v: Int := 0\n    def __init__(self, x: Int := 0) => self.v := x\ndef a := A(None)", "reject")
     f.add("call-None-as-arg", "def f(a: Int) -> Int => a\nf(None)", "reject")
     f.add("None-as-nullable-arg", "def f(a: Int?) -> Int => 5\nf(None)", "accept")
     f.add("value-as-nullable-arg", "def f(a: Int?) -> Int => 5\nf(3)", "accept")
